@@ -33,7 +33,10 @@ def scenario_list(tier, seed, focus):
                     'spread_ms': rnd.choice([0, 0, 5, 30, 100]),
                     # every fourth scenario under controlled scheduling: all processes of all commands stop at every gate
                     # of the hooked redo and a seeded scheduler (uniform or PCT priorities) lets one go at a time
-                    'sched': i % 4 == 3})
+                    'sched': i % 4 == 3,
+                    # the state directory was removed after a build (rm -rf .redo): the outputs are on disk but unknown,
+                    # every command has to add their records (also the transaction in which `redo` looks at its arguments)
+                    'wiped': i % 5 == 1})
     return out
 
 
@@ -56,7 +59,11 @@ def run_scenario(sc, root, bindir, focus):
         cmds.append(r)
         with open(os.path.join(pdir, 'src'), 'w') as f:
             f.write('v2\n')
-        if rnd.random() < 0.5:
+        if sc.get('wiped'):
+            shutil.rmtree(os.path.join(pdir, '.redo'), ignore_errors=True)
+            open(trace, 'w').close()
+            cmds.clear()
+        elif rnd.random() < 0.5:
             # some generated files have vanished (a `make clean` of part of the tree)
             for t in rnd.sample(pj['targs'], min(2, len(pj['targs']))):
                 try:
